@@ -535,6 +535,64 @@ class Stats:
         raise AssertionError(sig + ": " + detail)
 
 
+def stats_to_json(st):
+    return {"evaluations": st.evaluations, "nontrivial": sorted(st.nontrivial), "labels": st.labels,
+            "discards": st.discards, "samples": st.samples[:4], "parts": st.parts,
+            "failure": list(st.failure) if st.failure else None}
+
+
+def merge_stats(pid, tier, blobs):
+    st = Stats(pid, tier)
+    for b in blobs:
+        st.evaluations += b["evaluations"]
+        st.nontrivial.update(b["nontrivial"])
+        for k, v in b["labels"].items():
+            st.labels[k] = st.labels.get(k, 0) + v
+        for k, v in b["discards"].items():
+            st.discards[k] = st.discards.get(k, 0) + v
+        for k, v in b["parts"].items():
+            st.parts[k] = st.parts.get(k, 0) + v
+        for smp in b["samples"]:
+            if len(st.samples) < 4:
+                st.samples.append(smp)
+        if b["failure"] and st.failure is None:
+            st.failure = tuple(b["failure"])
+    return st
+
+
+WORKERS = int(os.environ.get("OXV_PY_WORKERS", "8"))
+
+
+def run_parallel(pid, tier, rule, assumptions):
+    """Runs WORKERS copies of this script as workers (own Hypothesis seed, own reference server),
+    merges their statistics and reports like a single run."""
+    t0 = time.time()
+    tmp = os.path.join(VERIF, "work", "py-workers")
+    os.makedirs(tmp, exist_ok=True)
+    procs = []
+    for k in range(WORKERS):
+        outp = os.path.join(tmp, f"{pid}-{k}.json")
+        if os.path.exists(outp):
+            os.remove(outp)
+        procs.append((outp, subprocess.Popen([sys.executable, os.path.abspath(__file__), "worker", pid, tier, str(k), outp],
+                                             stdout=subprocess.DEVNULL, stderr=subprocess.DEVNULL)))
+    blobs = []
+    crashed = 0
+    for outp, pr in procs:
+        pr.wait()
+        try:
+            blobs.append(json.load(open(outp)))
+        except Exception:
+            crashed += 1
+    st = merge_stats(pid, tier, blobs)
+    st.t0 = t0
+    code = finish(st, rule, assumptions)
+    if crashed and code == 0:
+        say(f"INCONCLUSIVE property={pid}: {crashed} of {WORKERS} Python workers ended without a report")
+        return 2
+    return code
+
+
 def known_findings():
     try:
         return json.load(open(os.path.join(VERIF, "known_findings.json")))
@@ -791,32 +849,35 @@ def c19_wrappers(stats):
         stats.fail("C19:wrapper:CompoundState:components-differ", f"{got} vs {want}", {"state": "CS"}, part)
 
 
-def run_c19(tier):
-    stats = Stats("C19", tier)
-    n = 300 if tier == "quick" else 5000
-    rule = ("Hypothesis-generated scenarios (six problem-definition variants; generated bounds, weights, resolution fractions, "
+C19_RULE = ("Hypothesis-generated scenarios (six problem-definition variants; generated bounds, weights, resolution fractions, "
             "start, 1-2 goal targets, 0-2 obstacles: boxes on R^n coordinates and balls measured with the wrapped space.distance; "
             "planner in {RRT, RRTConnect, RRTStar} with parameters and seed; optionally a resolution change on the Python space after "
             "the ProblemDefinition was created) run through oxmpl_py and, as the same PlanCase, through the Rust core (oxv refserver); "
             "outcome class and every float of the path compared as 64-bit patterns. PRM: soundness of the Python path against the Python "
             "callbacks (start, goal, validity, dense re-check through the core's interpolation, radius). Wrappers: ValueError <=> core Err over "
-            "the C12 bound lattice, distance / maximum-extent / canonicalised getters bit for bit. Non-trivial = both sides return a path of "
-            ">= 3 states in a world with an obstacle (differential); a path of >= 3 states with obstacles (PRM); a rejected or non-finite "
-            "argument (wrappers).")
-    assumptions = ["callbacks use only comparisons on state getters and the wrapped space.distance, so they are bit-identical functions in both languages",
-                   "examples where either side hits its 0.4 s time limit are discarded and counted",
-                   "Python goals' sample_goal() returns the targets in rotation and receives no generator; the Rust mirror does the same"]
-    try:
-        c19_wrappers(stats)
+            "the C12 bound lattice, distance / maximum-extent / canonicalised getters bit for bit. 8 worker processes with derived seeds. "
+            "Non-trivial = both sides return a path of >= 3 states in a world with an obstacle (differential); a path of >= 3 states with "
+            "obstacles (PRM); a rejected or non-finite argument (wrappers).")
+C19_ASSUME = ["callbacks use only comparisons on state getters and the wrapped space.distance, so they are bit-identical functions in both languages",
+              "examples where either side hits its 0.4 s time limit are discarded and counted",
+              "Python goals' sample_goal() returns the targets in rotation and receives no generator; the Rust mirror does the same"]
 
-        @seed(SEED)
+
+def worker_c19(tier, k):
+    stats = Stats("C19", tier)
+    n = (1600 if tier == "quick" else 16000) // WORKERS
+    try:
+        if k == 0:
+            c19_wrappers(stats)
+
+        @seed(SEED * 1000 + k)
         @hyp_settings(n)
         @given(scenario())
         def t_diff(sc):
             c19_check_scenario(sc, stats)
 
-        @seed(SEED + 1)
-        @hyp_settings(max(40, n // 5))
+        @seed(SEED * 1000 + 500 + k)
+        @hyp_settings(max(10, n // 5))
         @given(scenario(planners=("PRM",)))
         def t_prm(sc):
             c19_prm_soundness(sc, stats)
@@ -826,7 +887,11 @@ def run_c19(tier):
     except AssertionError:
         if stats.failure is None:
             raise
-    return finish(stats, rule, assumptions)
+    return stats
+
+
+def run_c19(tier):
+    return run_parallel("C19", tier, C19_RULE, C19_ASSUME)
 
 
 # ------------------------------------------------------------------------------------------
@@ -907,19 +972,22 @@ def c20_check(sc, stats):
                        f"paths differ ({len(a)} vs {len(b)} states)", sc, part)
 
 
-def run_c20(tier):
+C20_RULE = ("Hypothesis-generated C19 scenarios (all four planners, six variants) plus a fault plan: the validity callback or the goal's "
+            "is_satisfied fails (raises one of eight exception types / returns None / 'yes' / 'invalid' / 1 / 0.5 / [] / [False]) on every state "
+            "inside a fault region (ball in the space's metric) or at its k-th call, k < 40. Run A uses the failing callbacks, run B callbacks "
+            "that return False at exactly those points, same seed: outcome and path must be identical bit for bit, and (region faults) no state "
+            "of A's path may be one on which the callback failed. PRM (wall-clock roadmap) is checked for the second clause only. 8 worker "
+            "processes with derived seeds. Non-trivial = the fault was reached and run B differs from the fault-free run.")
+C20_ASSUME = ["JavaScript/WASM half of the anchor is not executable in this sandbox (no wasm target, no wasm-bindgen); Python only",
+              "int 1 counts as a non-bool because pyo3's bool extraction rejects it",
+              "examples that time out on either run are discarded and counted"]
+
+
+def worker_c20(tier, k):
     stats = Stats("C20", tier)
-    n = 300 if tier == "quick" else 4000
-    rule = ("Hypothesis-generated C19 scenarios (all four planners, six variants) plus a fault plan: the validity callback or the goal's "
-            "is_satisfied fails (raises one of eight exception types / returns None / 'yes' / 'invalid' / 1 / 0.5 / [] / [False]) on every state inside a fault region (ball in the space's metric) or "
-            "at its k-th call, k < 40. Run A uses the failing callbacks, run B callbacks that return False at exactly those points, same seed: "
-            "outcome and path must be identical bit for bit, and no state of A's path may be one on which the callback failed. PRM (wall-clock "
-            "roadmap) is checked for the second clause only. Non-trivial = the fault was reached and run B differs from the fault-free run.")
-    assumptions = ["JavaScript/WASM half of the anchor is not executable in this sandbox (no wasm target, no wasm-bindgen); Python only",
-                   "int 1 counts as a non-bool because pyo3's bool extraction rejects it",
-                   "examples that time out on either run are discarded and counted"]
+    n = (1200 if tier == "quick" else 12000) // WORKERS
     try:
-        @seed(SEED)
+        @seed(SEED * 1000 + k)
         @hyp_settings(n)
         @given(c20_case())
         def t(sc):
@@ -929,7 +997,11 @@ def run_c20(tier):
     except AssertionError:
         if stats.failure is None:
             raise
-    return finish(stats, rule, assumptions)
+    return stats
+
+
+def run_c20(tier):
+    return run_parallel("C20", tier, C20_RULE, C20_ASSUME)
 
 
 # ------------------------------------------------------------------------------------------
@@ -959,6 +1031,11 @@ def replay(path):
 def main():
     if len(sys.argv) >= 3 and sys.argv[1] == "replay":
         code = replay(sys.argv[2])
+    elif len(sys.argv) >= 6 and sys.argv[1] == "worker":
+        pid, tier, k, outp = sys.argv[2], sys.argv[3], int(sys.argv[4]), sys.argv[5]
+        st = worker_c19(tier, k) if pid == "C19" else worker_c20(tier, k)
+        json.dump(stats_to_json(st), open(outp, "w"))
+        code = 0
     elif len(sys.argv) >= 3 and sys.argv[1] == "run":
         tier = sys.argv[3] if len(sys.argv) > 3 else "quick"
         code = run_c19(tier) if sys.argv[2] == "C19" else run_c20(tier)
